@@ -22,7 +22,7 @@ func (b *c12Builder) lit(s string) int {
 var c12Hosts = []string{"h1", "web-01", "db.example.com", "-", "héllo"}
 var c12Apps = []string{"appServ", "nginx", "cron", "-", "a"}
 var c12Sources = []string{"main.log", "access.log", "-", "auth.log:12ab"}
-var c12Words = []string{"GET", "POST", "user=bob", "ok", "failed", "€uro", "日本", "ünï", "x", "timeout", "id=42", "\\n", "\\t", "\\\\", "\\q", "a\\", "tab\\tsep"}
+var c12Words = []string{"GET", "POST", "user=bob", "ok", "failed", "€uro", "日本", "ünï", "x", "timeout", "id=42", "\\n", "\\t", "\\\\", "\\q", "a\\", "tab\\tsep", "bad\xff", "cut\xe2\x82"}
 
 // literal values placed into fields by addFields / mapValue: valid UTF-8, no '$', some with multi-byte runes near typical cut points
 var c12LitValues = []string{"production", "abc€defghijk", "v", "xy", "ααααααα", "static-value-0123456789", "日本語テキスト", "a b c", "LIT", "q€", "ab€", "abc€"}
@@ -125,6 +125,10 @@ func (b *c12Builder) recordMsg(n int, emptyFields bool) []byte {
 	for i := range msg {
 		msg[i] = byte('a' + (i*7+n)%26)
 	}
+	if !emptyFields && r.Bool() {
+		// multi-byte runes: the cut at the message limit may fall inside one (the parser cleans the tail of a message it cut)
+		msg = []byte(b.padUTF8(n))
+	}
 	line := head + string(msg)
 	for len(line) < 32 {
 		line += "_"
@@ -134,7 +138,11 @@ func (b *c12Builder) recordMsg(n int, emptyFields bool) []byte {
 
 func (b *c12Builder) malformed() []byte {
 	r := b.r
-	switch r.Intn(7) {
+	switch r.Intn(9) {
+	case 7:
+		return []byte("< 2019-08-15T15:50:46Z host app 1 src - a first token of one byte")
+	case 8:
+		return []byte("<1 2019-08-15T15:50:46Z host app 1 src - first token without the version")
 	case 0:
 		return []byte("short")
 	case 1:
@@ -156,8 +164,8 @@ func (b *c12Builder) field(pool []int) int { return pool[b.r.Intn(len(pool))] }
 
 // pid (5) is the metric key of the generated configurations and is never given a value by a transform: a metric key with
 // invalid UTF-8 (a slice cutting a rune) panics in the metrics library (DESIGN.md section 6 #17, property C07)
-var c12DstFields = []int{9, 10, 11, 9, 10, 11, 3, 4, 6, 8, 2, 7}
-var c12AnyFields = []int{0, 1, 2, 3, 4, 5, 6, 7, 8, 9, 10, 11}
+var c12DstFields = []int{9, 10, 11, 12, 9, 10, 12, 3, 4, 6, 8, 2, 7}
+var c12AnyFields = []int{0, 1, 2, 3, 4, 5, 6, 7, 8, 9, 10, 11, 12}
 var c12SrcFields = []int{3, 4, 6, 8, 8, 9, 10, 1, 0, 2}
 
 func (b *c12Builder) stx() c12Stx {
@@ -297,11 +305,10 @@ func (b *c12Builder) prog(min, max int, allowDrop bool) []c12Tx {
 func (b *c12Builder) outputs() {
 	r := b.r
 	pc := b.pc
-	unescapeUsed := false
 	for k := 0; k < pc.NOut; k++ {
 		var o c12Out
 		o.Env = [][]int{{3}, {3, 4}, {4, 6, 3}, {11}}[r.Intn(4)]
-		for _, f := range []int{0, 2, 5, 7, 9, 10} {
+		for _, f := range []int{0, 2, 5, 7, 9, 10, 12} {
 			if r.Chance(1, 4) {
 				o.Hidden = append(o.Hidden, f)
 			}
@@ -312,11 +319,9 @@ func (b *c12Builder) outputs() {
 				f := r.PickInt([]int{9, 10, 4})
 				w.Inline = append(w.Inline, [2]int{f, b.lit(fname(f) + "=")})
 			}
-			// at most one unescape rewriter per configuration in the cases compared with the model: the flag it
-			// sets on the shared record (DESIGN.md section 6 #15, property C10) must not be observed by a second one
-			if !unescapeUsed && r.Bool() {
+			// several outputs may unescape the same field: the rewriter no longer sets the flag on the shared record
+			if r.Bool() {
 				w.Unescape = true
-				unescapeUsed = true
 			}
 			o.Rw = append(o.Rw, w)
 		}
